@@ -430,6 +430,8 @@ def expected_custom(v, r):
 
 def run_ctor(ctx, d):
     """d = {kind:'ctor', cls, kwargs:{arg: encoded}, focus:[args under test]}"""
+    if d["cls"] not in ctx.classes:     # (translator stopped: only the live registry is known)
+        return [], [], [("ctor-skipped", "class-unknown")], {}
     cls = ctx.classes[d["cls"]]
     ci = ctx.cinfo.get(d["cls"])
     kwargs = build_kwargs(ctx, d)
@@ -580,6 +582,8 @@ def apply_named(ctx, ci, fname, v):
 
 def run_attr(ctx, d):
     """d = {kind:'attr', cls, base:{kwargs}, sets:[[prop, encoded value], ...]}: generic property assignments"""
+    if d["cls"] not in ctx.classes:
+        return [], [], [("attr-skipped", "class-unknown")], {}
     cls = ctx.classes[d["cls"]]
     kwargs = {k: dec(v, ctx.odfdo) for k, v in d.get("base", {}).items()}
     inst = cls(**kwargs)
